@@ -278,13 +278,24 @@ def run(ctx, vlib):
                                 why="%s at this fault point: the failure does not reach the caller as a catchable exception%s" % (
                                     a.split("(")[0], "" if a.startswith("TERMINATE") else " / memory is leaked or corrupted")))
 
-    # ---- known findings: witness replay
+    # ---- known findings: witness replay.  A case ending in " *" is an axis: some position of it (all of them were
+    # enumerated above) must show the listed answer — used where the position depends on the allocator's behaviour.
     if known:
-        outs = vlib.run_driver(impl, [k["case"] for k in known], jobs=1)
-        for k, o in zip(known, outs):
+        fixed_cases = [k["case"] for k in known if not k["case"].endswith(" *")]
+        outs = dict(zip(fixed_cases, vlib.run_driver(impl, fixed_cases, jobs=1))) if fixed_cases else {}
+        fault_res = dict(zip(flines, fo))
+        for k in known:
+            if k["case"].endswith(" *"):
+                pre = k["case"][:-1]
+                hits = [l for l, a in fault_res.items() if l.startswith(pre) and a == k["implementation"]]
+                o = k["implementation"] if hits else "no position of this axis ends that way"
+                shown = hits[0] if hits else k["case"]
+            else:
+                o = outs.get(k["case"], "?")
+                shown = k["case"]
             if o == k["implementation"]:
                 extra = len(term_by.get(k["id"], []))
-                known_lines.append("%s: %s [case: %s -> %s]%s" % (k["id"], k["what"], k["case"], o,
+                known_lines.append("%s: %s [case: %s -> %s]%s" % (k["id"], k["what"], shown, o,
                                    " (+%d fault points of this run end the same way)" % extra if extra else ""))
             else:
                 diffs.append(dict(driver="fault", case=k["case"], implementation=o, model=k["implementation"], judge="UNKNOWN",
